@@ -31,9 +31,9 @@ CLAIMS = {
         note="Decoders written from the shell manuals are the oracle (shells are not executed); str::replace/format! enter through shims with assumed contracts (prelude/strings.rs), rewrite rules R4/R5/R7; pwsh typographic quotes excluded by precondition; runtime use of $literal as glob is out of reach.",
         design="§7 C07", tech="Verus contracts on mechanically extracted functions (postcondition = decoder round trip); bounded twin for replay", cat="proof"),
     "C08": dict(
-        text="Kani (on items extracted verbatim each run): is_valid_command_name rejects exactly names containing '/', Shell::from_str accepts exactly bash/fish/zsh/pwsh and returns UnknownShell with the given span otherwise (names <= 4 ASCII bytes: labelled bounded). Bounded stand-in: a table of planted mistakes of every class in several placements (cycles behind chains / beside unrelated definitions / with tails / several name orders, duplicates per shell, specialisations, words) and clean look-alikes, x 4 shells, compared with the Error variant the real pipeline returns.",
-        note="Not a proof; the checking functions are not yet under Verus contracts.",
-        design="§7 C08", tech="Kani harnesses on the extracted is_valid_command_name / Shell::from_str (bounded by name length, labelled); bounded classification table on the real pipeline (stand-in)", cat="proof"),
+        text="Verus proves the cycle clause on the real check::traverse_nonterminal_dependencies_dfs (rules R1, R14, R15): a cycle is reported only when the dependency graph it is given has a closed walk (the walk is exhibited from the search path), and a run that reports none extends `result` to an order in which every name comes after all the names it depends on; lemma_topo_acyclic: a graph all of whose names are in such an order has no closed walk (so acyclic definitions pass and cyclic ones cannot). Kani (on items extracted verbatim each run): is_valid_command_name rejects exactly names containing '/', Shell::from_str accepts exactly bash/fish/zsh/pwsh and returns UnknownShell with the given span otherwise (names <= 4 ASCII bytes: labelled bounded). Bounded stand-ins: a table of planted mistakes of every class in several placements (cycles behind chains / beside unrelated definitions / with tails / several name orders, duplicates per shell, specialisations, words, clashing descriptions at every offset) and clean look-alikes, x 4 shells, compared with the Error variant the real pipeline returns; and a semantic verdict oracle over the pipeline corpus.",
+        note="That get_nonterminals_resolution_order builds the right dependency graph and starts the search from every name, and the other mistake classes (duplicates, call variants, word mistakes, clashing descriptions), are decided by the bounded stand-ins only. Termination of the search unverified. Two recorded known findings (conservative UnboundedMatchable; SubwordSpaces through a definition edge).",
+        design="§7 C08", tech="Verus contract on the extracted dependency search (soundness of the cycle report, dependency-respecting order otherwise, acyclicity lemma); Kani harnesses on the extracted is_valid_command_name / Shell::from_str (bounded by name length, labelled); bounded classification table and verdict oracle on the real pipeline (stand-in)", cat="proof"),
     "C09": dict(
         text="Kani, full domain of the extracted enum: Inp equality is structural (merging equal symbols never moves a description or level), and the contract-level statement 'same literal text = one symbol' (fails: known finding D10). Bounded stand-in on the real compiled automata of the grammar corpus: no state with two items that read the same word and continue differently; the `||` grammar and its `|` variant match the same word sequences (exact language comparison over item readings). Known finding D10 recorded.",
         note="Not a proof; bash execution not covered.",
